@@ -47,6 +47,19 @@ def floordiv_ok(path, nwhole):
   return not extra or extra[-1][0] != "a" or len(extra) == 1
 
 
+def is_const(e):
+  """no signal / temporary / loop-variable read anywhere inside"""
+  return not any(x[0] in ("rd", "tmpv", "lv") for x in walk_exprs(e))
+
+
+def has_const_subtree(e):
+  """some operator node whose operands are all constant"""
+  for x in walk_exprs(e):
+    if x[0] in ("bin", "shift", "cmp", "inv", "ife", "zext", "sext", "trunc", "concat", "red", "cast") and is_const(x):
+      return True
+  return False
+
+
 class Atom:
   """A readable leaf: (path, width, type, is_conn_src)."""
   __slots__ = ("path", "w", "t", "conn", "key")
@@ -249,48 +262,81 @@ class CompGen:
     return None
 
   def expr(self, w, depth, env):
+    e = self._expr(w, depth, env)
+    if self.P["translatable"]:
+      # RTLIR folds all-constant sub-expressions and types them by the folded value: keep at
+      # least one signal read in every operator node
+      for _ in range(4):
+        if not has_const_subtree(e):
+          break
+        e = self._expr(w, depth, env)
+      else:
+        e = self.leaf_nonconst(w, env)
+    return e
+
+  def leaf_nonconst(self, w, env):
+    for _ in range(8):
+      e = self.leaf(w, env)
+      if not is_const(e):
+        return e
+    # zero-extend / truncate any readable atom
+    atoms = [a for a in self.atoms if isinstance(a.t, int)]
+    a = self.c.choice(atoms)
+    e = ["rd", a.path, a.w]
+    if a.w == w:
+      return e
+    return ["trunc", e, w] if a.w > w else ["zext", e, w]
+
+  def _expr(self, w, depth, env):
     c, P = self.c, self.P
     if depth <= 0 or c.random() < 0.25:
       return self.leaf(w, env)
     r = c.random()
     if r < 0.30:
       op = c.choice(["add", "sub", "and", "or", "xor", "add", "sub"] + ([] if w > 16 else ["mul"]))
-      a = self.expr(w, depth - 1, env)
+      a = self._expr(w, depth - 1, env)
       if c.random() < 0.2:
         b = self.small_int(w)
       else:
-        b = self.expr(w, depth - 1, env)
+        b = self._expr(w, depth - 1, env)
       return ["bin", op, a, b]
     if r < 0.40:
-      a = self.expr(w, depth - 1, env)
+      a = self._expr(w, depth - 1, env)
       if c.random() < 0.6:
         b = ["int", c.randint(0, min(w + 1, (1 << w) - 1, 70))]
       else:
-        b = self.expr(w, depth - 1, env)
+        b = self._expr(w, depth - 1, env)
       return ["shift", c.choice(["shl", "shr"]), a, b]
     if r < 0.48:
-      return ["inv", self.expr(w, depth - 1, env)]
+      return ["inv", self._expr(w, depth - 1, env)]
     if r < 0.60:
-      cond = self.expr(1, depth - 1, env)
-      return ["ife", cond, self.expr(w, depth - 1, env), self.expr(w, depth - 1, env)]
+      cond = self._expr(1, depth - 1, env)
+      return ["ife", cond, self._expr(w, depth - 1, env), self._expr(w, depth - 1, env)]
     if r < 0.70 and w >= 2:
       n = c.randint(2, min(3, w))
       cuts = sorted(c.sample(range(1, w), n - 1))
       bounds = [0] + cuts + [w]
-      return ["concat", [self.expr(b - a, depth - 1, env) for a, b in zip(bounds, bounds[1:])]]
+      return ["concat", [self._expr(b - a, depth - 1, env) for a, b in zip(bounds, bounds[1:])]]
     if r < 0.78 and w >= 2:
       w2 = c.randint(1, w - 1)
-      return [c.choice(["zext", "sext"]), self.expr(w2, depth - 1, env), w]
+      kind = c.choice(["zext", "sext"])
+      if kind == "sext" and P["translatable"]:
+        # known finding F17: sext() of a non-trivial expression is mistranslated; plain reads only
+        cands = [a for a in self.atoms if isinstance(a.t, int) and a.w == w2]
+        if not cands:
+          return ["zext", self._expr(w2, depth - 1, env), w]
+        return ["sext", ["rd", c.choice(cands).path, w2], w]
+      return [kind, self._expr(w2, depth - 1, env), w]
     if r < 0.84:
       w2 = w + c.randint(1, 8)
-      return ["trunc", self.expr(w2, depth - 1, env), w]
+      return ["trunc", self._expr(w2, depth - 1, env), w]
     if w == 1 and r < 0.95:
       w2 = c.choice([1, 2, 4, 8, 5])
       if c.random() < 0.6:
-        a = self.expr(w2, depth - 1, env)
-        b = self.small_int(w2) if c.random() < 0.3 else self.expr(w2, depth - 1, env)
+        a = self._expr(w2, depth - 1, env)
+        b = self.small_int(w2) if c.random() < 0.3 else self._expr(w2, depth - 1, env)
         return ["cmp", c.choice(["eq", "ne", "lt", "le", "gt", "ge"]), a, b]
-      return ["red", c.choice(["and", "or", "xor"]), self.expr(w2, depth - 1, env)]
+      return ["red", c.choice(["and", "or", "xor"]), self._expr(w2, depth - 1, env)]
     if r < 0.97 and c.random() < P["p_var_index"] * 3:
       e = self.var_index_read(w, env)
       if e is not None:
@@ -407,6 +453,11 @@ class CompGen:
                [["assign", path + [["vb", ["lv", "i"]]], self.expr(1, 1, env)]]]]
     self.nblk += 1
     if c.random() < 0.25:
+      if self.P["translatable"]:
+        # the RTLIR type checker rejects a negative loop end: stop at 0 and do index 0 separately
+        from .refmodel import _subst
+        return {"k": "comb", "name": name,
+                "stmts": [["for", "i", t - 1, 0, -1, body]] + _subst(body, "i", 0)}
       return {"k": "comb", "name": name, "stmts": [["for", "i", t - 1, -1, -1, body]]}
     return {"k": "comb", "name": name, "stmts": [["for", "i", 0, t, 1, body]]}
 
@@ -518,9 +569,14 @@ class CompGen:
           if wide:
             a = c.choice(wide)
             lo = c.randint(0, a.w - w)
-            base, off = a.path, 0
-            self.items.append({"k": "connect", "a": pc["path"], "b": a.path + [["s", lo, lo + w]],
-                               "flip": c.random() < 0.5, "op": self.conn_op(pc)})
+            it = {"k": "connect", "a": pc["path"], "b": a.path + [["s", lo, lo + w]],
+                  "flip": c.random() < 0.5, "op": self.conn_op(pc)}
+            if c.random() < 0.4:
+              olo = c.randint(0, lo)
+              ohi = c.randint(lo + w, a.w)
+              if (olo, ohi) != (lo, lo + w):
+                it["bnest"] = [olo, ohi]
+            self.items.append(it)
             made = True
         elif isinstance(pc["t"], int):
           v = c.getrandbits(w) if c.random() < 0.7 else 0
